@@ -12,7 +12,7 @@ Next == Len(doc) < MaxLen /\ \E t \in Alphabet : doc' = Append(doc, t)
 
 \* a doc token as lexer symbols in a target language (each token is followed by a DOC marker)
 Sym(lang, t) ==
-    CASE t = "NL" -> <<"NL">> [] t = "BC" -> <<"BC">> [] t = "BO" -> <<"BO">> [] t = "LC" -> <<"LC">>
+    CASE t \in {"NL", "CRLF"} -> <<"NL">> [] t = "CR" -> <<"CR">> [] t = "BC" -> <<"BC">> [] t = "BO" -> <<"BO">> [] t = "LC" -> <<"LC">>
       [] t = "TDQ" -> (IF lang = "python" THEN <<"TDQ">> ELSE <<"DQ", "DQ", "DQ">>)
       [] t = "TSQ" -> (IF lang = "python" THEN <<"TSQ">> ELSE <<"SQ", "SQ", "SQ">>)
       \* runs of 2, 4 and 5 double quotes: a run that is not a multiple of three leaves quotes next to an escaped triple
@@ -24,7 +24,7 @@ Sym(lang, t) ==
 \* what the wrappers do to a token before writing it (since fixes in typeshare: line-comment backends start a new
 \* comment line at every line break, TypeScript writes `*\/` for `*/`, Python escapes backslashes and the delimiter)
 WSym(lang, t) ==
-    CASE t = "NL" /\ lang \in {"kotlin", "swift", "scala", "go"} -> <<"NL", "LC">>
+    CASE t \in {"NL", "CRLF", "CR"} /\ lang \in {"kotlin", "swift", "scala", "go"} -> <<"NL", "LC">>      \* (CR: since 8cdcc90)
       [] t = "BC" /\ lang = "typescript" -> <<"X", "BS", "X">>
       [] t = "TDQ" /\ lang = "python" -> <<"BS", "DQ", "BS", "DQ", "BS", "DQ">>
       [] t = "QDQ" /\ lang = "python" -> <<"BS", "DQ", "BS", "DQ", "BS", "DQ", "DQ">>
